@@ -71,23 +71,25 @@ theorem fireOne_mall (now id : Nat) (τ : Timer) (T : Target) :
 theorem run_cases2 (T : Target) (now : Nat) :
     (T.run now = T ∧ (T.exit ≠ none ∨ T.stopping ≠ none)) ∨
     ((T.run now).closedAt = some (T.closedAt.getD now) ∧ (T.run now).mbox = [] ∧
-      ((T.run now).handled = T.handled ∨
-       (T.run now).handled = T.handled ++ T.mbox.map (fun m => (m.1, m.2, now)))) ∨
+      ∃ l : List (Nat × Nat), l.Sublist T.mbox ∧ (T.run now).handled = T.handled ++ l.map (fun m => (m.1, m.2, now))) ∨
     ((T.run now).closedAt = T.closedAt ∧ (T.run now).mbox = [] ∧
       (T.run now).handled = T.handled ++ T.mbox.map (fun m => (m.1, m.2, now))) := by
   unfold Target.run
   split
   · rename_i h; exact .inl ⟨rfl, .inl (isSome_ne_none h)⟩
   split
-  · exact .inr (.inl ⟨rfl, rfl, .inl rfl⟩)
+  · exact .inr (.inl ⟨rfl, rfl, [], List.nil_sublist _, by simp [Target.exitWith]⟩)
   split
   · rename_i h; exact .inl ⟨rfl, .inr (isSome_ne_none h)⟩
   split
-  · right; left; unfold Target.endLoop; split <;> exact ⟨rfl, rfl, .inl rfl⟩
-  · dsimp only
-    split
-    · right; left; unfold Target.endLoop; split <;> exact ⟨rfl, rfl, .inr rfl⟩
-    · exact .inr (.inr ⟨rfl, rfl, rfl⟩)
+  · right; left; unfold Target.endLoop
+    split <;> exact ⟨rfl, rfl, [], List.nil_sublist _, by simp [Target.exitWith]⟩
+  · split
+    · exact .inr (.inl ⟨rfl, rfl, _, List.take_sublist _ _, rfl⟩)
+    · dsimp only
+      split
+      · right; left; unfold Target.endLoop; split <;> exact ⟨rfl, rfl, _, List.Sublist.refl _, rfl⟩
+      · exact .inr (.inr ⟨rfl, rfl, rfl⟩)
 
 theorem ids_moved (T : Target) (now : Nat) (m : Nat × Nat) :
     m ∈ (T.handled ++ T.mbox.map (fun m => (m.1, m.2, now))).map (fun h => (h.1, h.2.1)) ↔ m ∈ T.ids := by
@@ -188,6 +190,13 @@ theorem EInv.step {s : State} (h : EInv s) (hi : Inv s) (_hd : DInv s) (op : Op)
   | mark => exact ⟨h.acc, h.before⟩
   | dropHandle i => exact ⟨h.acc, h.before⟩
   | hold => exact h.same _ rfl (fun _ => Iff.rfl)
+  | fail =>
+    have e : Timers.step s .fail = { s with target := s.target.poisonMsg } := rfl
+    rw [e]
+    unfold Target.poisonMsg
+    split
+    · exact h.same _ rfl (fun _ => Iff.rfl)
+    · exact ⟨h.acc, h.before⟩
   | stop =>
     have e : Timers.step s .stop = { s with target := { s.target.stop .manual with manualStop := true } } := rfl
     rw [e]; exact h.same _ (by simp) (fun m => by simp [Target.ids])
@@ -239,15 +248,16 @@ theorem EInv.step {s : State} (h : EInv s) (hi : Inv s) (_hd : DInv s) (op : Op)
   | target =>
     have e : Timers.step s .target = { s with target := s.target.run s.now } := rfl
     rw [e]
-    rcases run_cases2 s.target s.now with ⟨e1, _⟩ | ⟨hc, hm, hh⟩ | ⟨hc, hm, hh⟩
+    rcases run_cases2 s.target s.now with ⟨e1, _⟩ | ⟨hc, hm, l, hl, hh⟩ | ⟨hc, hm, hh⟩
     · rw [e1]; exact ⟨h.acc, h.before⟩
     · refine h.closing hi _ hc ?_
       intro m hmm
-      unfold Target.ids at hmm
-      rw [hm, List.nil_append] at hmm
-      rcases hh with hh | hh
-      · rw [hh] at hmm; exact List.mem_append_right _ hmm
-      · rw [hh] at hmm; exact (ids_moved s.target s.now m).mp hmm
+      unfold Target.ids at hmm ⊢
+      rw [hm, List.nil_append, hh, List.map_append, untag] at hmm
+      simp only [List.mem_append] at hmm ⊢
+      rcases hmm with hmm | hmm
+      · exact .inr hmm
+      · exact .inl (hl.subset hmm)
     · refine h.same _ hc ?_
       intro m
       unfold Target.ids
@@ -350,6 +360,8 @@ theorem expand_tail_mbox (s : State) (m : MOp) :
   | kill => exact .inl ⟨[.kill], rfl⟩
   | drain => exact .inl ⟨[.drain], rfl⟩
   | psrelease => exact .inl ⟨[.psrelease], rfl⟩
+  | fail => exact .inl ⟨[.fail], rfl⟩
+  | advFail d => exact .inl ⟨[.tick d, .fail, .target] ++ fireAll s.timers.length, by simp [expand]⟩
   | hold => exact .inr ⟨.hold, rfl, rfl, rfl⟩
   | dropHandle i => exact .inr ⟨.dropHandle i, rfl, rfl, rfl⟩
   | abort i =>
